@@ -138,6 +138,24 @@ def prepare(d, seed, names):
     files["F"] = pf
     files["F_names"] = fnames
     files["F_ped"] = synth.write_ped(os.path.join(F, "fam.ped"), [("kid", "dad", "mom")])
+    # the family again with three copies of every read and a VCF that claims 1/1 for dad, mom and kid at the first
+    # variant (the reads show 0/1): a --distrust-genotypes run lists three genotype changes for one record
+    F2 = os.path.join(d, "F2")
+    os.makedirs(F2)
+    fw2, _ = family_world(seed + 1)
+    for r in fw2["reads"]:
+        r["n"] = 3
+    pf2 = pw.materialize(fw2, F2)
+    con2 = os.path.join(F2, "contradicted.vcf")
+    done_ = False
+    with open(pf2["vcf"]) as f, open(con2, "w") as o:
+        for line in f:
+            t = line.rstrip("\n").split("\t")
+            if not line.startswith("#") and len(t) > 9 and not done_:
+                done_ = True
+                t[9:] = [("1/1" if g == "0/1" else g) for g in t[9:]]
+            o.write("\t".join(t) + "\n")
+    files["F2"] = dict(pf2, vcf=con2)
     P = os.path.join(d, "P")
     os.makedirs(P)
     files["P"] = pw.materialize(poly_world(names, seed + 2), P)
@@ -278,6 +296,7 @@ def scenarios(files, names):
         {"id": "phase-distrust-lists", "cmd": "phase", "names": names, "chroms": chroms, "args": {"inputs": [a["bam"]], "vcf": files["A_contradicted"], "fasta": a["fasta"], "gtlist": True, "kw": {"distrust_genotypes": True, "include_homozygous": True}}},
         {"id": "phase-ped", "cmd": "phase", "names": files["F_names"], "args": {"inputs": [f["bam"]], "vcf": f["vcf"], "fasta": f["fasta"], "ped": files["F_ped"]}},
         {"id": "phase-use-ped-samples", "cmd": "phase", "names": ["dad", "mom", "kid"], "args": {"inputs": [f["bam"]], "vcf": f["vcf"], "fasta": f["fasta"], "ped": files["F_ped"], "kw": {"use_ped_samples": True}}},
+        {"id": "phase-use-ped-samples-distrust-lists", "cmd": "phase", "names": ["dad", "mom", "kid"], "args": {"inputs": [files["F2"]["bam"]], "vcf": files["F2"]["vcf"], "fasta": files["F2"]["fasta"], "ped": files["F_ped"], "gtlist": True, "kw": {"use_ped_samples": True, "distrust_genotypes": True, "include_homozygous": True}}},
         {"id": "genotype", "cmd": "genotype", "names": names, "chroms": chroms, "args": {"inputs": [a["bam"]], "vcf": a["vcf"], "fasta": a["fasta"]}},
         {"id": "genotype-ped", "cmd": "genotype", "names": files["F_names"], "args": {"inputs": [f["bam"]], "vcf": f["vcf"], "fasta": f["fasta"], "ped": files["F_ped"]}},
         {"id": "genotype-use-ped-samples", "cmd": "genotype", "names": ["dad", "mom", "kid"], "args": {"inputs": [f["bam"]], "vcf": f["vcf"], "fasta": f["fasta"], "ped": files["F_ped"], "kw": {"use_ped_samples": True}}},
